@@ -3,7 +3,8 @@
  "name": "rsz_fix_uninit_block_bitmaps",
  "props": ["C08"],
  "level": "U/iter",
- "tier": "wip",
+ "tier": "quick",
+ "tier_after_hooks": "quick",
  "harness": "h_fix_uninit",
  "includes": ["resize"],
  "loop_contracts": true,
